@@ -200,7 +200,7 @@ pub fn main(ctx: &Ctx) -> i32 {
                 let (m, op) = mutate_tokens(&toks, &mut rng);
                 judge(ctx, &m, &format!("near-miss-{}", op), true);
             }
-            if i % 1500 == 0 {
+            if i % 1500 == 0 || ctx.want_sample() {
                 ctx.sample(json!({"valid_text_level": level, "text": text}));
             }
             i += nw;
